@@ -29,6 +29,10 @@ func c15(c *Ctx) {
 	r.Rule("C15.writer-gate", "RSV1 is set only when compression was negotiated, is enabled and the message is data (C02.rsv1)")
 	r.Rule("C15.prepared-gate", "a PreparedMessage is sent compressed only to a connection that negotiated compression: prepareKey.compress == (newCompressionWriter != nil && enableWriteCompression && isData), and the private rendering Conn compresses iff key.compress with compressNoContextTakeover (same rules as C19.key-agrees / C19.key-complete)")
 	c.borrow(c19, map[string]string{"C19.key-agrees": "C15.prepared-gate", "C19.key-complete": "C15.prepared-gate"})
+	r.Rule("C15.all-header-lines", "extension offers and replies spread over several Sec-WebSocket-Extensions header lines are all parsed: the loop over header lines is left only when the lines are exhausted (no break out of it)")
+	noBreakFromHeaderLoops(c, "C15.all-header-lines", "parseExtensions")
+	r.Rule("C15.offer-owned", "the client's extension offer is the library's own: a caller-supplied Sec-WebSocket-Extensions request header is never copied (same rule as C14.request-shape), so the server cannot negotiate an extension the client will not act on")
+	c.borrow(c14, map[string]string{"C14.request-shape": "C15.offer-owned"})
 	r.Rule("C15.level-range", "Conn.compressionLevel is assigned only the default constant or a value that passed isValidCompressionLevel, whose bounds equal the index range of flateWriterPools; compressNoContextTakeover indexes the pools with level - minCompressionLevel")
 	r.Table("PreparedMessage.frame's private Conn sets only newCompressionWriter (it never reads): reviewed exception to C15.paired")
 
@@ -213,15 +217,15 @@ func (d *dialA) clientCompression(rule string) {
 
 // preNetworkOffer: shares the request-shape rule (offer iff EnableCompression, literal parses).
 func (d *dialA) preNetworkOffer(rule string) {
-	d.preNetwork(rule+"-url", rule+"-offer", rule+"-key")
+	d.preNetwork(rule+"#url", rule+"#offer", rule+"#key")
 	// keep only the offer-related obligation under this property's rule name
 	r := d.c.R
 	var kept []core.Ob
 	for _, o := range r.Obs {
 		switch o.Rule {
-		case rule + "-url", rule + "-key":
+		case rule + "#url", rule + "#key":
 			continue
-		case rule + "-offer":
+		case rule + "#offer":
 			if o.Construct != "request-fields-and-protocol-headers" {
 				continue
 			}
@@ -357,4 +361,58 @@ func compressorDeflates(c *Ctx, rule string) {
 		}
 	})
 	r.Check(rule, shortFn(fn), "every-level-deflates", fn.Pos(), ok && n > 0, why)
+}
+
+// noBreakFromHeaderLoops: in the named functions no loop with a loop test is
+// left from inside its body towards the loop's own exit block (a `break` out
+// of the header-line loop would skip the remaining header lines); leaving
+// through a distinct returning block (`return true`) is fine.
+func noBreakFromHeaderLoops(c *Ctx, rule string, names ...string) {
+	for _, name := range names {
+		fn := c.fn(name)
+		fns := []*ssa.Function{fn}
+		for callee := range c.P.Mod(fn).Callees { // helpers extracted from it
+			if c.isNewHelper(callee, 1) {
+				fns = append(fns, callee)
+			}
+		}
+		ok, why := true, "every loop with a test is left only through that test"
+		n := 0
+		for _, f := range fns {
+			for _, h := range loopHeads(f) {
+				body := loopBody(h)
+				var exit *ssa.BasicBlock
+				for _, s := range h.Succs {
+					if !body[s] {
+						exit = s
+					}
+				}
+				if exit == nil {
+					continue // for { ... }: left by break/return only
+				}
+				// the head's other successor is the head of an enclosing loop: a `continue outer`, not this loop's exit
+				enclosing := false
+				for _, oh := range loopHeads(f) {
+					if oh == exit && loopBody(oh)[h] {
+						enclosing = true
+					}
+				}
+				if enclosing {
+					continue
+				}
+				n++
+				for b := range body {
+					if b == h {
+						continue
+					}
+					for _, s := range b.Succs {
+						if s == exit {
+							ok, why = false, "the loop at "+c.P.Pos(h.Instrs[len(h.Instrs)-1].Pos())+" in "+shortFn(f)+" is left from inside its body (a break): header lines after the current one are never examined, so an extension named on a later Sec-WebSocket-Extensions line is missed by one side only"
+						}
+					}
+				}
+			}
+		}
+		c.R.Check(rule, shortFn(fn), "header-line-loop-not-left-early", fn.Pos(), ok && n > 0, why)
+	}
 }
